@@ -29,6 +29,8 @@ const POOL: &[&[u8]] = &[
     b"\n",
     // a query after a payload that contains a newline: the answer is owed only at the real terminator
     b"A:K #11\n;:B?\n",
+    // a command (not a query) whose handler returns a value: nothing may be written for it
+    b"A:V;:B?\n",
 ];
 
 /// response owed for one query call as logged (`name(args)`), with newline
